@@ -1,17 +1,21 @@
 import Rg.Proofs.Loader
 import Rg.Proofs.ConvWf
+import Rg.Proofs.SrcGroup
 import Rg.Model.Macro
 import Rg.Gen.Buckets
 /-!
 # C06 — Load never crashes; accepted rules are structurally sound  (IR-level loader)
 
-Two models meet here: `Loader.loadFile` (`ir_loader.go` from `ir.File` onwards) and `Conv.convert` /
-`Comp.convertRuleG` (`irconv.go`: `convertFilterExpr` outside helper bodies, and `convertRuleExpr`
-after the chain walk).  `load_total` needs the IR to be well-formed (`wfFile`); `convert_wf` proves
-that what the converter accepts is — so `source_load_total` has no such hypothesis left.
-Still outside the proof (covered by the harness's differential, look-alike and mutation streams
-only): go/parser, go/types, the chain walk itself, `localDefine`/`expandMacro` (helper calls: see
-C18), doc comments, `Import`, custom declarations and their quasigo compilation, bundles.
+Two models meet here: `Loader.loadFile` (`ir_loader.go` from `ir.File` onwards) and the converter
+(`irconv.go`): `Conv.convertG` (`convertFilterExpr`, local helper calls entering through its hook),
+`Comp.convertRuleW` (`convertRuleExpr` after the chain walk) and `Grp.convertFileM` (Rg/Model/SrcGroup.lean:
+`ConvertFile`'s declaration loop, `convertInitFunc`, `convertRuleGroup`'s statement loop with `localDefine`,
+`Import()`, doc comments, the chain walk, `findLocalMacro`/`expandMacro` with Go's unbounded recursion made
+explicit).  `load_total` needs the IR to be well-formed (`wfFile`); `convert_wf` proves that what the converter
+accepts is — so `source_group_load_total` / `source_load_total` have no such hypothesis left.
+Still outside the proof (covered by the harness's differential, look-alike and mutation streams only):
+go/parser, go/types (the syntax arrives annotated and classified: `isMatcherFunc`, `isBoolResult`, constant
+values, `ObjectOf`), `strconv.Unquote`, custom declarations and their quasigo compilation, bundles' contents.
 -/
 namespace C06
 open Loader
@@ -297,7 +301,7 @@ theorem convert_wf_operand (dec : Bytes → String) (e : CExpr) (fe : IR.FilterE
 
 /-- **convert_total**: the converter itself answers with IR or a located error on every annotated
 expression (before and after the arity repair: its own partial operations were guarded by 149f4cd) -/
-theorem convert_total (ar : Bool) (e : CExpr) : ∀ p, convertG ar e ≠ .panic p := convertG_noPanic ar e
+theorem convert_total (ar : Bool) (e : CExpr) : ∀ p, convertG noHook ar e ≠ .panic p := convertG_noPanic ar e
 
 /-- **source_filter_load_total**: for every source filter expression the converter accepts, the
 loader's `newFilter` on the converted IR does not panic. -/
@@ -333,10 +337,11 @@ theorem source_rule_load_total (o : Oracles) (tc : TagCfg) (hs : o.strict = true
     NoPanic (loadRule o tc g r) :=
   loadRule_noPanic o tc hs hr g r (convertRule_wf dec c r h)
 
-/-- **source_load_total**: conversion of the rule groups followed by loading never panics — neither
+/-- **source_chains_load_total** (the statement over groups given as already-walked chains; `source_load_total`
+below is the statement over source files): conversion of the rule groups followed by loading never panics — neither
 half, and with no well-formedness hypothesis: either the converter reports a located error, or the
 loader returns a rule set or a located error. -/
-theorem source_load_total (o : Oracles) (tc : TagCfg) (hs : o.strict = true) (hr : tagsInRange o tc)
+theorem source_chains_load_total (o : Oracles) (tc : TagCfg) (hs : o.strict = true) (hr : tagsInRange o tc)
     (dec : Bytes → String) (gs : List SrcGroup) :
     (∀ p, convertFileG true dec gs ≠ .panic p) ∧
     (∀ f, convertFileG true dec gs = .ok f → NoPanic (loadFile o tc f)) :=
@@ -350,6 +355,193 @@ theorem source_accepted_rules_bound (o : Oracles) (tc : TagCfg) (hs : o.strict =
   accepted_rules_bound o tc f hs as hl
 
 end composition
+
+/-! ### the front of the converter: whole rule-group bodies, whole files (Rg/Model/SrcGroup.lean) -/
+section groups
+open Conv Comp Grp
+
+theorem loadGroup_noPanic (o : Oracles) (tc : TagCfg) (hs : o.strict = true) (hr : tagsInRange o tc) (g : Loader.Group)
+    (hw : ∀ r ∈ g.rules, wfRule r = true) : NoPanic (loadGroup o tc g) := by
+  unfold loadGroup
+  split
+  · exact ⟨_, rfl⟩
+  · apply noPanic_lbind
+    · apply seqL_noPanic
+      intro r hrm
+      exact loadRule_noPanic o tc hs hr g.name r (hw r hrm)
+    · intro _; exact ⟨_, rfl⟩
+
+/-- **walk_total**: the chain walk of `convertRuleExpr` answers with the collected clauses or a located error
+on every nested call/selector expression — any receiver, any method names, any arities, any order -/
+theorem walk_total (c : Chain) (e : RExpr) : ∀ p, walk c e ≠ .panic p := walk_noPanic c e
+
+/-- **helper_conversion_wf**: with local helpers in scope, at every recursion depth, what `convertFilterExpr`
+accepts is still inside the loader's domain (an expansion is converted by the same function) -/
+theorem helper_conversion_wf (dec : Bytes → String) (cfg : Cfg) (har : cfg.ar = true) (fs : List MacroLit.MacroDef)
+    (fuel : Nat) (active : List String) (e : CExpr) (fe : IR.FilterExpr) (h : convertM cfg fs fuel active e = .ok fe) :
+    ∀ n, wfFE n (toFE dec fe) = true :=
+  (out_good dec fe (convertM_out cfg har fs fuel active e fe h)).1
+
+/-- **helper_recursion_bounded** (with the recursion guard of fixes/c06-helper-recursion.diff): `fuel ≥ number of
+helpers` nested expansions are never exhausted, whatever the helper bodies call -/
+theorem helper_recursion_bounded (cfg : Cfg) (hrg : cfg.rg = true) (fs : List MacroLit.MacroDef) (fuel : Nat)
+    (hf : fs.length ≤ fuel) (e : CExpr) : ∀ p, convertM cfg fs fuel [] e ≠ .panic p :=
+  convertM_noPanic_guard cfg hrg fs fuel [] List.nodup_nil (by intro a ha; cases ha) (by simpa using hf) e
+
+/-- **helper_recursion_bounded_partial** (the code as it is): the same when the helper table is acyclic — every
+bare-identifier call in a helper's body that names a recorded helper names an *earlier* one, and never a parameter -/
+theorem helper_recursion_bounded_partial (cfg : Cfg) (fs : List MacroLit.MacroDef) (hac : acyclicAt fs = true) (fuel : Nat)
+    (hf : fs.length ≤ fuel) (e : CExpr) : ∀ p, convertM cfg fs fuel [] e ≠ .panic p :=
+  convertM_noPanic_acyclic cfg fs hac fuel [] e (fun _ _ j hj => Nat.lt_of_lt_of_le (idxOf_lt hj) hf)
+
+/-- **doc_pragmas_total**: `convertDocComments` never reaches its `panic("unhandled 'doc' pragma")` -/
+theorem doc_pragmas_total (ts : List Bytes) : ∀ p, docComments ts ≠ .panic p := docComments_noPanic ts
+
+/-- the statement of `source_group_load_total` for one variant of the converter -/
+def GroupLoadTotal (o : Oracles) (tc : TagCfg) (dec : Bytes → String) (env : Env) (fuel : Nat) (g : Grp.Group) : Prop :=
+  (∀ p, convertGroupM dec env fuel g ≠ .panic p) ∧
+  (∀ out, convertGroupM dec env fuel g = .ok out →
+    (∀ r ∈ out.group.rules, wfRule r = true ∧ NoPanic (loadRule o tc out.group.name r)) ∧
+    NoPanic (loadGroup o tc out.group))
+
+theorem groupLoadTotal_of (o : Oracles) (tc : TagCfg) (hs : o.strict = true) (hr : tagsInRange o tc)
+    (dec : Bytes → String) (env : Env) (har : env.ar = true) (fuel : Nat) (g : Grp.Group)
+    (hfuel : g.body.length ≤ fuel) (htyped : g.importTyped = true) (hh : env.rg = true ∨ g.acyclic = true) :
+    GroupLoadTotal o tc dec env fuel g := by
+  refine ⟨convertGroupM_noPanic dec env har fuel g hfuel htyped hh, ?_⟩
+  intro out h
+  have hw := convertGroupM_wf dec env har fuel g out h
+  exact ⟨fun r hrm => ⟨hw r hrm, loadRule_noPanic o tc hs hr _ r (hw r hrm)⟩, loadGroup_noPanic o tc hs hr _ hw⟩
+
+/-- **source_group_load_total** (converter with the recursion guard of fixes/c06-helper-recursion.diff): for every
+rule-group body — statements of any kind, helper definitions of any shape calling anything, call chains with any
+receivers, names, arities and order — conversion never panics nor runs out of stack, and every rule it accepts is
+inside the loader's domain and loads without a panic; so does the group.  `fuel ≥ number of statements` suffices.
+`importTyped` is what go/types guarantees about `m.Import(…)` on the `dsl.Matcher` parameter (one argument). -/
+theorem source_group_load_total (o : Oracles) (tc : TagCfg) (hs : o.strict = true) (hr : tagsInRange o tc)
+    (dec : Bytes → String) (unq : String → Option Bytes) (fuel : Nat) (g : Grp.Group)
+    (hfuel : g.body.length ≤ fuel) (htyped : g.importTyped = true) :
+    GroupLoadTotal o tc dec { unq := unq, ar := true, rg := true } fuel g :=
+  groupLoadTotal_of o tc hs hr dec _ rfl fuel g hfuel htyped (Or.inl rfl)
+
+/-- **source_group_load_total_partial** (the converter as it is): the same for groups whose helper tables are
+acyclic (`Group.acyclic`).  The hypothesis is necessary: `selfRecursive_diverges` below. -/
+theorem source_group_load_total_partial (o : Oracles) (tc : TagCfg) (hs : o.strict = true) (hr : tagsInRange o tc)
+    (dec : Bytes → String) (unq : String → Option Bytes) (fuel : Nat) (g : Grp.Group)
+    (hfuel : g.body.length ≤ fuel) (htyped : g.importTyped = true) (hac : g.acyclic = true) :
+    GroupLoadTotal o tc dec { unq := unq, ar := true, rg := false } fuel g :=
+  groupLoadTotal_of o tc hs hr dec _ rfl fuel g hfuel htyped (Or.inr hac)
+
+/-- what `source_load_total` needs of a file: fuel for every group, `Import` typed, and for the variants
+without a repair the hypothesis that stands in for it -/
+def FileOK (env : Env) (ifx : Bool) (fuel : Nat) (f : SrcFile) : Prop :=
+  (∀ g, Decl.group g ∈ f.decls → g.body.length ≤ fuel ∧ g.importTyped = true ∧ (env.rg = true ∨ g.acyclic = true)) ∧
+  (ifx = true ∨ ∀ dn, dslPkgname "dsl" f.imports = .ok dn → ∀ b, Decl.init b ∈ f.decls → initSafe dn b = true)
+
+theorem convertFileM_noPanic (dec : Bytes → String) (env : Env) (har : env.ar = true) (ifx : Bool) (fuel : Nat) (f : SrcFile)
+    (hok : FileOK env ifx fuel f) : ∀ p, convertFileM dec env ifx fuel f ≠ .panic p := by
+  unfold convertFileM
+  intro p h
+  cases hdn : dslPkgname "dsl" f.imports with
+  | panic q => exact dslPkgname_noPanic _ _ q hdn
+  | err => rw [hdn] at h; simp [CRes.bind] at h
+  | ok dn =>
+    rw [hdn] at h
+    simp only [CRes.bind] at h
+    revert h
+    apply bind_noPanic
+    · apply declLoop_noPanic dec env ifx fuel dn f.decls
+      · intro g hg
+        obtain ⟨h1, h2, h3⟩ := hok.1 g hg
+        exact convertGroupM_noPanic dec env har fuel g h1 h2 h3
+      · intro b hb
+        rcases hok.2 with hfx | hsafe
+        · subst hfx; exact initStmts_noPanic_fixed dn b
+        · cases ifx with
+          | true => exact initStmts_noPanic_fixed dn b
+          | false => exact initStmts_noPanic_asis dn b (hsafe dn hdn b hb)
+    · intro out q; simp
+
+theorem convertFileM_wf (dec : Bytes → String) (env : Env) (har : env.ar = true) (ifx : Bool) (fuel : Nat) (f : SrcFile)
+    (out : FileOut) (h : convertFileM dec env ifx fuel f = .ok out) : wfFile out.file = true := by
+  unfold convertFileM at h
+  obtain ⟨dn, _, h⟩ := bind_ok h
+  obtain ⟨o, ho, h⟩ := bind_ok h
+  have := cres_ok_inj h; subst this
+  simp only [wfFile, List.all_eq_true, List.mem_map, forall_exists_index, and_imp, forall_apply_eq_imp_iff₂]
+  intro go hgo r hr
+  obtain ⟨g, _, hg⟩ := declLoop_groups dec env ifx fuel dn f.decls o ho go hgo
+  exact convertGroupM_wf dec env har fuel g go hg r hr
+
+/-- the statement of `source_load_total` over source files, for one variant of the converter -/
+def FileLoadTotal (o : Oracles) (tc : TagCfg) (dec : Bytes → String) (env : Env) (ifx : Bool) (fuel : Nat) (f : SrcFile) : Prop :=
+  (∀ p, convertFileM dec env ifx fuel f ≠ .panic p) ∧
+  (∀ out, convertFileM dec env ifx fuel f = .ok out → NoPanic (loadFile o tc out.file))
+
+/-- **source_load_total** — restated over files made of rule-group *bodies*, `init`
+functions and other declarations (converter with fixes/c06-helper-recursion.diff and fixes/c06-init-arity.diff):
+`ConvertFile` followed by loading never panics: either the converter reports a located error, or the loader returns
+a rule set or a located error.  Hypotheses: fuel for the longest body; go/types' guarantee about `m.Import`. -/
+theorem source_load_total (o : Oracles) (tc : TagCfg) (hs : o.strict = true) (hr : tagsInRange o tc)
+    (dec : Bytes → String) (unq : String → Option Bytes) (fuel : Nat) (f : SrcFile)
+    (hg : ∀ g, Decl.group g ∈ f.decls → g.body.length ≤ fuel ∧ g.importTyped = true) :
+    FileLoadTotal o tc dec { unq := unq, ar := true, rg := true } true fuel f :=
+  ⟨convertFileM_noPanic dec _ rfl true fuel f ⟨fun g h => ⟨(hg g h).1, (hg g h).2, Or.inl rfl⟩, Or.inl rfl⟩,
+   fun out h => load_total o tc out.file hs hr (convertFileM_wf dec _ rfl true fuel f out h)⟩
+
+/-- **source_load_total_partial** (the converter as it is): the same for files whose groups have acyclic
+helper tables and whose `init` functions call the real `dsl.ImportRules` (`initSafe`).  Both hypotheses are
+necessary: `selfRecursive_diverges`, `importRules_noArgs_panics`, `importRules_universeMethod_panics` below. -/
+theorem source_load_total_partial (o : Oracles) (tc : TagCfg) (hs : o.strict = true) (hr : tagsInRange o tc)
+    (dec : Bytes → String) (unq : String → Option Bytes) (fuel : Nat) (f : SrcFile)
+    (hg : ∀ g, Decl.group g ∈ f.decls → g.body.length ≤ fuel ∧ g.importTyped = true ∧ g.acyclic = true)
+    (hi : ∀ dn, dslPkgname "dsl" f.imports = .ok dn → ∀ b, Decl.init b ∈ f.decls → initSafe dn b = true) :
+    FileLoadTotal o tc dec { unq := unq, ar := true, rg := false } false fuel f :=
+  ⟨convertFileM_noPanic dec _ rfl false fuel f ⟨fun g h => ⟨(hg g h).1, (hg g h).2.1, Or.inr (hg g h).2.2⟩, Or.inr hi⟩,
+   fun out h => load_total o tc out.file hs hr (convertFileM_wf dec _ rfl false fuel f out h)⟩
+
+/-! #### connection with C18's model of helper definitions (`MacroLit.groupLoop`, `Macro.expand`) -/
+
+/-- **stmtLoop_is_groupLoop**: the statement loop of `convertRuleGroup`, run with name resolution in place of rule
+conversion, returns what `MacroLit.groupLoop` returns on the same statements: C18's model of helper definitions is
+an *instance* of this loop, and `C18.group_calls_see_go_binding` speaks about the tables rules are converted with -/
+theorem stmtLoop_is_groupLoop (matcher : String) (stmts : List Grp.Stmt) (fs : List MacroLit.MacroDef) (seen : Bool)
+    (out : List Bytes × List (List (Option MacroLit.MacroDef)))
+    (h : stmtLoopG matcher resolveCalls fs seen stmts = .ok out) :
+    MacroLit.groupLoop fs (stmts.map (toMacroStmt matcher)) = some out.2 :=
+  stmtLoop_groupLoop matcher stmts fs seen out h
+
+/-- **groupLoop_refuses_loop_refuses**: a body `MacroLit.groupLoop` refuses is refused by the loop whatever is done
+with rule statements -/
+theorem groupLoop_refuses_loop_refuses {ρ : Type} (matcher : String) (cr : List MacroLit.MacroDef → Nat → RExpr → CRes ρ)
+    (stmts : List Grp.Stmt) (fs : List MacroLit.MacroDef) (seen : Bool)
+    (h : MacroLit.groupLoop fs (stmts.map (toMacroStmt matcher)) = none) : ∀ out, stmtLoopG matcher cr fs seen stmts ≠ .ok out :=
+  groupLoop_refusal matcher cr stmts fs seen h
+
+/-- **expansion_is_macro_expand**: on arguments that are `types.Info` annotations of `gs`, the model's `expandMacro`
+refuses exactly when `Macro.expand` does, and otherwise the expression it hands back to `convertFilterExpr` is an
+annotation of `Macro.expand`'s result — the inlined body (`C18.macro_transparent`) -/
+theorem expansion_is_macro_expand (unq : String → Option Bytes) (m : String) (d : MacroLit.MacroDef) (as : List CExpr)
+    (gs : List Macro.GExpr) (h : ShapeL as gs) (e' : CExpr) (hok : expandC unq m d as = .ok e') :
+    Macro.expand m d.params gs d.body = .ok (Macro.inline d.params gs d.body) ∧ Shape e' (Macro.inline d.params gs d.body) :=
+  expandC_ok_shape unq m d h e' hok
+
+theorem expansion_refused_iff (unq : String → Option Bytes) (m : String) (d : MacroLit.MacroDef) (as : List CExpr)
+    (gs : List Macro.GExpr) (h : ShapeL as gs) :
+    match Macro.checkArgs true m d.params gs 0 with
+    | some _ => expandC unq m d as = .err
+    | none => ∃ e', expandC unq m d as = .ok e' ∧ Shape e' (Macro.inline d.params gs d.body) :=
+  expandC_shape unq m d h
+
+/-- **source_accepted_rules_bound** over source files: every alternative accepted from a converted file binds every
+variable its Where and At() clauses mention -/
+theorem source_file_accepted_rules_bound (o : Oracles) (tc : TagCfg) (hs : o.strict = true) (dec : Bytes → String)
+    (env : Env) (ifx : Bool) (fuel : Nat) (f : SrcFile) (out : FileOut) (_h : convertFileM dec env ifx fuel f = .ok out)
+    (as : List Accepted) (hl : loadFile o tc out.file = lok as) : ∀ a ∈ as, sound a = true :=
+  accepted_rules_bound o tc out.file hs as hl
+
+end groups
+
 
 /-! ### non-vacuity and the defects of the converter as it was (kernel-checked) -/
 section examples
@@ -372,7 +564,7 @@ def o1 : Oracles := { o0 with strict := true }
 -- `Where(m["x"].Text.Matches("a"))`: accepted by the converter, inside the loader's domain, loaded
 theorem conv_textMatches :
     Conv.convert (textMatches [litS [97]]) = .ok (mkOp "VarTextMatches" (.str [120]) [mkOp "String" (.str [97]) []]) := by
-  simp [Conv.convert, textMatches, convertG, convertImplG, convertStructG, convertListG, an, mx, litS, CExpr.ann, inspect,
+  simp [Conv.convert, textMatches, convertG, convertImplG, convertStructG, convertListG, askHook, an, mx, litS, CExpr.ann, inspect,
     pathAt, pathUnder, unparen, toStringValue, stringValueCalls, listCalls, argCalls, List.lookup, mkOp_op, opn_String,
     opn_VarTextMatches]
 example : ∀ n, wfFE n (toFE latin1 (mkOp "VarTextMatches" (.str [120]) [mkOp "String" (.str [97]) []])) = true :=
@@ -382,7 +574,7 @@ example : (match newFilter o1 3 (toFE latin1 (mkOp "VarTextMatches" (.str [120])
 
 -- defect 3 (before fixes/c06-predicate-arity.diff): `Where(v.Text.Matches())` is accepted with `Args: []` …
 theorem asis_textMatches0 : Conv.convertAsIs (textMatches []) = .ok (mkOp "VarTextMatches" (.str [120]) []) := by
-  simp [Conv.convertAsIs, textMatches, convertG, convertImplG, convertStructG, convertListG, an, mx, litS, CExpr.ann, inspect,
+  simp [Conv.convertAsIs, textMatches, convertG, convertImplG, convertStructG, convertListG, askHook, an, mx, litS, CExpr.ann, inspect,
     pathAt, pathUnder, unparen, toStringValue, stringValueCalls, listCalls, argCalls, List.lookup, mkOp_op, opn_VarTextMatches]
 -- … which is outside the loader's domain, and `newFilter` reads `filter.Args[0]`:
 example : wfFE 2 (toFE latin1 (mkOp "VarTextMatches" (.str [120]) [])) = false := by decide
@@ -390,7 +582,7 @@ example : (match newFilter o1 2 (toFE latin1 (mkOp "VarTextMatches" (.str [120])
     | .panic .index => true | _ => false) = true := by decide
 -- after the repair it is a located error of the converter
 example : Conv.convert (textMatches []) = .err := by
-  simp [Conv.convert, textMatches, convertG, convertImplG, convertStructG, convertListG, an, mx, litS, CExpr.ann, inspect,
+  simp [Conv.convert, textMatches, convertG, convertImplG, convertStructG, convertListG, askHook, an, mx, litS, CExpr.ann, inspect,
     pathAt, pathUnder, unparen, toStringValue, stringValueCalls, argCalls, List.lookup]
 
 /-- `t.Match("x").At().Report("")` after the chain walk -/
@@ -408,11 +600,153 @@ example : ([{ chainAt0 with atArgs := none, whereArgs := some [] }, { chainAt0 w
       (match convertRuleG false latin1 c with | .panic .index => true | _ => false) &&
       (match convertRuleG true latin1 c with | .err => true | _ => false)) = true := by decide
 
--- non-vacuity of `source_load_total`: a group with `m.Match("x").At(m["x"]).Report("")` converts and loads
+-- non-vacuity of `source_chains_load_total`: a group with `m.Match("x").At(m["x"]).Report("")` converts and loads
 def chainOK : Chain := { chainAt0 with atArgs := some [mx] }
 example : (match convertFileG true latin1 [⟨4, "g", [chainOK]⟩] with
     | .ok f => (match loadFile o1 genTags f with | .ok (.ok as) => as.length == 1 | _ => false) | _ => false) = true := by decide
 
 end examples
+
+/-! ### the front of the converter: non-vacuity, and the defects of the code as it is (kernel-checked) -/
+section groupExamples
+open Conv Comp Grp Macro MacroLit
+
+def env0 : Env := { unq := fun _ => none, ar := true, rg := false }
+def cfg0 : Cfg := env0.cfg "m"
+/-- `h := func(v dsl.Var) bool { return h(v) }` — valid Go when a package-level `h` exists -/
+def hSelf : MacroDef := ⟨"h", ["v"], .call (.ident "h") [.ident "v"]⟩
+/-- `h := func(v dsl.Var) bool { return v.Pure }` -/
+def hPure : MacroDef := ⟨"h", ["v"], .sel (.ident "v") "Pure"⟩
+/-- `h(m["x"])` -/
+def hcall : CExpr := .call an (.ident an "h") [mx]
+
+theorem hcall_conv_panic (hk : Hook) (ar : Bool) (p : Panic) (h : hk "h" [mx] = some (.panic p)) :
+    convertG hk ar hcall = .panic p := by
+  simp [convertG, convertImplG, convertStructG, askHook, hcall, an, CExpr.ann, inspect, pathAt, Conv.unparen,
+    stringValueCalls, List.lookup, h]
+
+theorem hSelf_hook (act : List String) (conv : List String → CExpr → CRes IR.FilterExpr) :
+    hookOf cfg0 [hSelf] act conv "h" [mx] = some (conv ("h" :: act) hcall) := by
+  simp [hookOf, findMacro, hSelf, cfg0, env0, Env.cfg, expandC, checkArgsC, isSafeC, bindArgsC, inst, instList, mx, litS, an,
+    Conv.unparen, hcall, noAnn, CRes.bind, List.lookup]
+
+/-- **selfRecursive_diverges** — defect of the code as it is: the expansion of `h(m["x"])` is `h(m["x"])` again
+(`findLocalMacro` finds the helper being expanded), so the conversion exhausts *every* fuel: Go's stack overflows
+(fatal, not recoverable).  The hypothesis `acyclic` of `source_group_load_total_partial` is necessary. -/
+theorem selfRecursive_diverges : ∀ (fuel : Nat) (act : List String), convertM cfg0 [hSelf] fuel act hcall = .panic .stack
+  | 0, act => by
+    rw [convertM]; exact hcall_conv_panic _ _ _ (hSelf_hook act _)
+  | fuel + 1, act => by
+    rw [convertM]
+    exact hcall_conv_panic _ _ _ (by rw [hSelf_hook act _, selfRecursive_diverges fuel])
+
+-- with the recursion guard the second expansion is a located error
+example : (match convertM { cfg0 with rg := true } [hSelf] 1 [] hcall with | .err => true | _ => false) = true := by
+  simp [convertM, convertG, convertImplG, convertStructG, askHook, hcall, an, CExpr.ann, inspect, pathAt, Conv.unparen,
+    stringValueCalls, List.lookup, hookOf, findMacro, hSelf, cfg0, env0, Env.cfg, expandC, checkArgsC, isSafeC, bindArgsC, inst,
+    instList, mx, litS, noAnn, CRes.bind]
+
+theorem opn_VarPure : IR.opNamed "VarPure" = 12 := by decide
+
+/-- a helper call is converted to the IR of the inlined body -/
+theorem helper_call_converts : convertM cfg0 [hPure] 1 [] hcall = .ok (mkOp "VarPure" (.str [120]) []) := by
+  simp [convertM, convertG, convertImplG, convertStructG, askHook, hcall, an, CExpr.ann, inspect, pathAt, pathUnder, Conv.unparen,
+    toStringValue, stringValueCalls, selectorOps, List.lookup, hookOf, findMacro, hPure, cfg0, env0, Env.cfg, expandC, checkArgsC,
+    isSafeC, bindArgsC, inst, mx, litS, noAnn, CRes.bind, mkOp_op, opn_VarPure]
+
+/-- `m.Match("x").Where(w).Report("r")` as the statement at line `l` -/
+def ruleStmt (l : Nat) (w : CExpr) : Grp.Stmt :=
+  .expr l (.call (.sel (.call (.sel (.call (.sel (.ident "m") "Match") [(l, litS [120])]) "Where") [(l, w)]) "Report") [(l, litS [114])])
+/-- `m.Match("x").Report("r")` -/
+def plainRule (l : Nat) : Grp.Stmt :=
+  .expr l (.call (.sel (.call (.sel (.ident "m") "Match") [(l, litS [120])]) "Report") [(l, litS [114])])
+/-- `name := func(v dsl.Var) bool { return body }` -/
+def defStmt (name : String) (body : GExpr) : Grp.Stmt :=
+  .assign true [.ident name] [.funcLit true ["v"] [.ret [body]]]
+
+/-- `//doc:tags a` + `func g(m dsl.Matcher) { h := func(v dsl.Var) bool { return v.Pure }; m.Import("x"); var …;
+m.Match("x").Where(h(m["x"])).Report("r"); m.Match("x").Report("r") }` -/
+def groupOK : Grp.Group :=
+  { line := 3, name := "g", paramNames := ["m"], doc := some [docPrefix ++ pTags ++ [32, 97]],
+    body := [defStmt "h" (.sel (.ident "v") "Pure"), .expr 5 (.call (.sel (.ident "m") "Import") [(5, litS [120])]), .decl,
+             ruleStmt 6 hcall, plainRule 7] }
+
+-- non-vacuity of the hypotheses of `source_group_load_total(_partial)`
+example : groupOK.importTyped = true ∧ groupOK.acyclic = true ∧ groupOK.body.length ≤ 5 := by decide
+
+-- … and of its conclusion: a group converts (one rule, one import, one doc pragma) and loads
+def groupPlain : Grp.Group := { groupOK with body := [.expr 5 (.call (.sel (.ident "m") "Import") [(5, litS [120])]), .decl, plainRule 7] }
+example : (match convertGroupM latin1 env0 3 groupPlain with
+    | .ok out => out.imports == [[120]] && out.docs == [(pTags, [32, 97])] && out.group.rules.length == 1 &&
+        (match loadGroup o1 genTags out.group with | .ok (.ok as) => as.length == 1 | _ => false)
+    | _ => false) = true := by
+  decide
+
+/-- the group with `h := func(v dsl.Var) bool { return h(v) }` -/
+def groupRec : Grp.Group := { groupOK with body := [defStmt "h" (.call (.ident "h") [.ident "v"]), ruleStmt 6 hcall] }
+
+example : groupRec.acyclic = false ∧ groupRec.importTyped = true := by decide
+/-- the defect at the level of `convertRuleGroup`: every fuel is exhausted -/
+theorem groupRec_diverges (fuel : Nat) : convertGroupM latin1 env0 fuel groupRec = .panic .stack := by
+  have h := selfRecursive_diverges fuel []
+  simp only [cfg0, hSelf] at h
+  simp [convertGroupM, groupRec, groupOK, docComments, docComment, hasPrefix, docPrefix, pTags, trimPrefix, knownPragmas,
+    handledPragmas, pSummary, pBefore, pAfter, pNote, stmtLoopG, defStmt, localDefine, ruleStmt, RExpr.isCall,
+    matcherMethodName, ruleExpr, walk, link, emptyChain, exprs, convertRuleW, parsePatterns, chainArg0, CRes.bind, parseStringArg,
+    toStringValue, litS, h]
+
+-- `m.Import()`: only go/types stands between the converter and `call.Args[0]`
+def groupImp0 : Grp.Group := { groupOK with body := [.expr 5 (.call (.sel (.ident "m") "Import") [])] }
+example : groupImp0.importTyped = false := by decide
+example : (match convertGroupM latin1 env0 1 groupImp0 with | .panic .index => true | _ => false) = true := by decide
+
+-- convertInitFunc: `dsl.ImportRules` is recognised by the two identifiers alone
+def initNoArgs : IStmt := .call 7 (.sel (.ident "dsl") "ImportRules") []
+def initOneArg : IStmt := .call 7 (.sel (.ident "dsl") "ImportRules") [⟨litS [112], .noObject⟩]
+def initUniverse : IStmt :=
+  .call 7 (.sel (.ident "dsl") "ImportRules") [⟨litS [112], .noObject⟩, ⟨.sel an (.ident an "e") "Error", .noPkg⟩]
+def initReal : IStmt :=
+  .call 7 (.sel (.ident "dsl") "ImportRules") [⟨litS [112], .noObject⟩, ⟨.sel an (.ident an "bundle") "Bundle", .pkg [98]⟩]
+
+/-- defect: `var dsl T; func init() { dsl.ImportRules() }` — `call.Args[0]` -/
+theorem importRules_noArgs_panics :
+    (match initStmt false "dsl" initNoArgs with | .panic .index => true | _ => false) = true := by decide
+/-- defect: `dsl.ImportRules("p")` — `call.Args[1]` -/
+theorem importRules_oneArg_panics :
+    (match initStmt false "dsl" initOneArg with | .panic .index => true | _ => false) = true := by decide
+/-- defect: `dsl.ImportRules("p", e.Error)` — `bundleObj.Pkg().Path()` on the universe's `error.Error` -/
+theorem importRules_universeMethod_panics :
+    (match initStmt false "dsl" initUniverse with | .panic .nilDeref => true | _ => false) = true := by decide
+-- located errors after fixes/c06-init-arity.diff
+example : ([initNoArgs, initOneArg, initUniverse].all fun s =>
+    match initStmt true "dsl" s with | .err => true | _ => false) = true := by decide
+example : initSafe "dsl" [initNoArgs] = false ∧ initSafe "dsl" [initOneArg] = false ∧ initSafe "dsl" [initUniverse] = false ∧
+    initSafe "dsl" [initReal] = true := by decide
+example : (match initStmt false "dsl" initReal with | .ok b => b.line == 7 && b.pkgPath == [98] | _ => false) = true := by decide
+
+-- non-vacuity of `source_load_total(_partial)`: imports, a non-function declaration, init, a group, a custom function
+def fileOK : SrcFile := { imports := [⟨none, some dslPath⟩], decls := [.gen, .init [initReal], .group groupPlain, .custom] }
+example : (match convertFileM latin1 env0 false 3 fileOK with
+    | .ok out => out.bundles.length == 1 &&
+        (match loadFile o1 genTags out.file with | .ok (.ok as) => as.length == 1 | _ => false)
+    | _ => false) = true := by decide
+example : initSafe "dsl" [initReal] = true ∧ groupPlain.acyclic = true ∧ groupPlain.importTyped = true := by decide
+
+-- the walk: any receiver, links in any order, a repeated `Do` (the innermost wins), an unknown method
+example : (match walk (emptyChain 1) (.call (.sel (.call (.sel (.call (.sel .other "Match") []) "Do") [(1, litS [97])]) "Do") []) with
+    | .ok c => c.doArgs.isSome && (c.doArgs.getD []).length == 1 && c.matchArgs.isSome | _ => false) = true := by decide
+example : (match walk (emptyChain 1) (.call (.sel (.call (.sel (.ident "m") "Match") []) "Foo") []) with
+    | .err => true | _ => false) = true := by decide
+example : (match walk (emptyChain 1) (.call (.sel (.call (.sel (.ident "m") "Match") []) "Match") []) with
+    | .err => true | _ => false) = true := by decide
+
+-- the connection theorems are not vacuous: the statements of `groupOK` through both loops; `m["x"]` and its shape
+example : (match stmtLoopG "m" resolveCalls [] false groupOK.body with
+    | .ok out => out.2 == [[some hPure], []] | _ => false) = true := by decide
+example : MacroLit.groupLoop [] (groupOK.body.map (toMacroStmt "m")) = some [[some hPure], []] := by decide
+example : ShapeL [mx] [.index (.ident "m") (.lit "STRING" "\"x\"")] :=
+  .cons (.index _ (.ident _ _) (.lit _ _ _ _ _ rfl)) .nil
+
+end groupExamples
 
 end C06
